@@ -105,6 +105,11 @@ class Builder:
         return self.struct("State", operand_stack=self.newtype("OperandStack", self.vec(stack)), frame_stack=fs,
                            instruction_pointer=self.newtype("InstructionPointer", ipv), heap=heap)
 
+    def object_cell(self, parent, fields, methods):
+        inst = self.struct("ObjectInstance", parent=parent, fields=MapV([(k, self.new(v)) for k, v in fields]),
+                           methods=MapV([(k, self.new(v)) for k, v in methods]))
+        return Enum("HeapObject", 1, {1: [self.new(inst)]})
+
     def array_cell(self, elements):
         return Enum("HeapObject", 0, {0: [self.new(self.newtype("ArrayInstance", self.vec(elements)))]})
 
@@ -424,6 +429,157 @@ def expect_call_function(argv):
     return "OK ip=%d ret=%s frame=[%s] stack=[%s] frames=2" % (start, ret, " ".join(taken + ["null"] * nlocals), " ".join(rest))
 
 
+# ---------------------------------------------------------------------------------------------------------------
+# kernel 3: method call on objects (eval_call_method -> dispatch_method -> dispatch_object_method -> eval_call_object_method):
+# receiver first, then its parent, ... ; primitives at the end of the chain supply their built-ins; argument count checked
+
+def kernel_object_dispatch(task, bodies, enums, structs):
+    import c09_dispatch as c09
+    body = next((b for k, b in bodies.items() if k == "eval_call_method" or k.endswith("::eval_call_method")), None)
+    if body is None:
+        task.result["inconclusive"].append("eval_call_method not found in the MIR dump")
+        return
+    CODE_LEN = 6
+    for recv in (0, 1):
+        for nargs in (1, 2):
+            ex = mirx.Executor(bodies, enums, structs)
+            store = {}
+            b = Builder(ex, store, structs, enums)
+            name = z3.String("name")
+            ip = z3.BitVec("ip", 32)
+            S, T = z3.BitVec("S", 32), z3.BitVec("T", 32)
+            parent = b.pointer("P")
+            b.constraints.append(b.syms["P"][0] != K_REF)  # shape: the chain ends in null / an integer / a boolean
+            consts = [Enum("ProgramObject", PO.index("String"), {PO.index("String"): [b.new(Str(name))]})]
+            program = b.program(consts, CODE_LEN)
+            obj0 = b.object_cell(parent, [], [("m", b.po_method(0, 2, 1, BV(S, 32, False), 1))])
+            obj1 = b.object_cell(b.pointer_const(K_REF, 0), [], [("n", b.po_method(0, 2, 0, BV(T, 32, False), 1))])
+            args = [b.pointer("a%d" % i) for i in range(nargs)]
+            stack = [b.pointer("s0"), b.pointer_const(K_REF, recv)] + args
+            state = b.state(stack, [b.frame(None, [b.pointer("l0")])], BV(ip, 32, False), [obj0, obj1])
+            state_cell = b.new(state)
+            try:
+                outcomes = list(ex.run(body, [Ref(b.new(program)), Ref(state_cell), Ref(b.new(b.cpi(0))),
+                                              Ref(b.new(b.newtype("Arity", b.u(8, nargs + 1))))], b.constraints, store))
+            except (mirx.Unsupported, KeyError, AttributeError, TypeError, IndexError) as e:
+                task.result["inconclusive"].append("eval_call_method (object receiver %d, %d arguments): MIR construct outside the executor: %r; opaque calls: %s" % (
+                    recv, nargs, e, sorted(ex.unmodelled)))
+                continue
+            a_terms = [b.syms["a%d" % i] for i in range(nargs)]
+            pk, pi, pb, _pr = b.syms["P"]
+            is_m, is_n = name == z3.StringVal("m"), name == z3.StringVal("n")
+            own = (is_n if recv == 1 else z3.BoolVal(False))           # defined by the receiver itself
+            inherited = is_m if recv == 1 else z3.BoolVal(False)       # found in the parent
+            direct = is_m if recv == 0 else z3.BoolVal(False)
+            user = z3.Or(own, inherited, direct)
+            next_in = z3.ULT(z3.ZeroExt(32, ip) + 1, z3.BitVecVal(CODE_LEN, 64))
+            # built-in reached at the end of the chain
+            rows_int = c09.spec(K_INT, pi, name, a_terms[0])
+            rows_bool = c09.spec(K_BOOL, pb, name, a_terms[0])
+            rows_null = []
+
+            def builtin_defined(rows):
+                return z3.Or([z3.And(r[0], r[1]) for r in rows]) if rows and nargs == 1 else z3.BoolVal(False)
+            prim_defined = z3.And(z3.Not(user), z3.Or(z3.And(pk == K_INT, builtin_defined(rows_int)), z3.And(pk == K_BOOL, builtin_defined(rows_bool))))
+            prim_dontcare = z3.And(z3.Not(user), pk == K_INT, z3.Or([z3.And(r[0], r[5]) for r in rows_int])) if nargs == 1 else z3.BoolVal(False)
+            user_defined = z3.And(user, nargs == 1)
+
+            def judge(o, recv=recv, nargs=nargs, a_terms=a_terms, state_cell=state_cell, b=b):
+                st = o.store
+                if o.kind == "panic":
+                    if o.msg in c09.R9:
+                        return z3.Or(z3.Not(z3.Or(prim_defined, user_defined)), prim_dontcare), "panic: " + o.msg
+                    return z3.BoolVal(False), "panic: " + str(o.msg)
+                if o.kind != "return":
+                    return z3.BoolVal(False), "unreachable code reached"
+                if o.value.disc == 1:
+                    return z3.Or(z3.Not(z3.Or(prim_defined, user_defined)), prim_dontcare), "Err"
+                S_ = st[state_cell]
+                sf = structs["State"]
+                ostack = st[field(st, S_, sf, "operand_stack").cells[0]]
+                frames = field(st, field(st, S_, sf, "frame_stack"), structs["FrameStack"], "frames")
+                ipv = st[field(st, S_, sf, "instruction_pointer").cells[0]]
+                if len(frames.cells) == 2:
+                    # a user method was entered
+                    top = st[frames.cells[1]]
+                    locals_ = field(st, top, structs["Frame"], "locals")
+                    nloc = len(locals_.cells)
+                    conj = [user_defined]
+                    if len(ostack.cells) != 1:
+                        return z3.BoolVal(False), "Ok(call) but operand stack has %d values" % len(ostack.cells)
+                    slot0 = pointer_terms(st, st[locals_.cells[0]])
+                    definer = 1 if recv == 1 else 0
+                    # slot 0 is the receiver (the pinned code binds the defining object when the method is inherited; either is accepted)
+                    conj.append(z3.And(slot0[0] == K_REF, z3.Or(slot0[3] == recv, z3.And(inherited, slot0[3] == 0))))
+                    conj.append(same_pointer(pointer_terms(st, st[locals_.cells[1]]), a_terms[0]) if nloc >= 2 else z3.BoolVal(False))
+                    # "m" has one extra local (null), "n" none
+                    conj.append(z3.If(z3.Or(inherited, direct), z3.BoolVal(nloc == 3), z3.BoolVal(nloc == 2)))
+                    if nloc == 3:
+                        conj.append(pointer_terms(st, st[locals_.cells[2]])[0] == K_NULL)
+                    if not isinstance(ipv.disc, int) or ipv.disc != 1:
+                        return z3.BoolVal(False), "Ok(call) but instruction pointer unset"
+                    conj.append(st[st[ipv.payload[1][0]].cells[0]].t == z3.If(own, T, S))
+                    ra = field(st, top, structs["Frame"], "return_address")
+                    if not isinstance(ra.disc, int):
+                        return None, "return address with symbolic discriminant"
+                    conj.append(z3.And(next_in, st[st[ra.payload[1][0]].cells[0]].t == ip + 1) if ra.disc == 1 else z3.Not(next_in))
+                    return z3.And(*conj), "Ok(call)"
+                # a built-in ran: one result replaces receiver and argument
+                if len(frames.cells) != 1 or len(ostack.cells) != 2:
+                    return z3.BoolVal(False), "Ok(built-in) but %d frames / %d stack values" % (len(frames.cells), len(ostack.cells))
+                res = pointer_terms(st, st[ostack.cells[1]])
+                if None in res:
+                    return None, "built-in result is an opaque value"
+                conj = [z3.Or(prim_defined, prim_dontcare)]
+                for rows, kind in ((rows_int, K_INT), (rows_bool, K_BOOL)):
+                    for (cond, dfn, rkind, ival, bval, dc) in rows:
+                        same = z3.And(res[0] == rkind, res[1] == ival) if rkind == K_INT else z3.And(res[0] == rkind, res[2] == bval)
+                        conj.append(z3.Implies(z3.And(pk == kind, cond), z3.Or(dc, z3.And(dfn, same))))
+                if isinstance(ipv.disc, int):
+                    conj.append(z3.And(next_in, st[st[ipv.payload[1][0]].cells[0]].t == ip + 1) if ipv.disc == 1 else z3.Not(next_in))
+                return z3.And(*conj), "Ok(built-in)"
+
+            def describe(o, mdl, what, pathno, recv=recv, nargs=nargs, a_terms=a_terms, b=b):
+                nm = decode_z3_string(mdl.eval(name, model_completion=True).as_string())
+                argv = ["object-method", nm.encode().hex(), str(recv), model_pointer(mdl, b.syms["P"])] + [model_pointer(mdl, t) for t in a_terms]
+                observed = native(argv)
+                expected = expect_object_method(nm, recv, argv[3], argv[4:])
+                reproduced = any(not match_object_method(expected, line) for line in observed.values())
+                return {"id": "object_method_recv%d_args%d_path%d" % (recv, nargs, pathno),
+                        "what": "method call on an object: outcome %s contradicts parent-chain dispatch for receiver #%d, name %r, chain end %s, arguments %s (expected %s, observed %s)" % (
+                            what, recv, nm, argv[3], argv[4:], expected, observed),
+                        "reproduced": reproduced, "replay_bin": "vmstep", "replay_argv": argv, "expected": expected, "observed": observed}
+
+            task.check_paths("eval_call_method on objects", "receiver #%d of a two-object chain, %d argument(s)" % (recv, nargs), ex, b.constraints, outcomes, judge, describe)
+
+
+def expect_object_method(name, recv, parent, args):
+    import c09_dispatch as c09
+    if (name == "n" and recv == 1) or name == "m":
+        return "CALL" if len(args) == 1 else "ERR"
+    def val(p):
+        if p == "null":
+            return ("null", 0)
+        k, v = p.split(":")
+        return (k, bool(int(v)) if k == "bool" else int(v))
+    if parent == "null":
+        return "ERR"
+    r = c09.concrete_spec(val(parent), name, [val(a) for a in args])
+    if r[0] == "ok":
+        return "OK %s:%d" % (r[1], int(r[2]))
+    return "ANY" if r[0] == "dontcare" else "ERR"
+
+
+def match_object_method(expected, line):
+    if expected == "ANY":
+        return True
+    if expected == "ERR":
+        return line.startswith("ERR") or (line.startswith("PANIC") and any(m in line for m in ("divide", "remainder")))
+    if expected == "CALL":
+        return line.startswith("CALL")
+    return line == expected
+
+
 def main():
     t0 = time.time()
     task = Task()
@@ -436,11 +592,13 @@ def main():
         task.result["inconclusive"].append("MIR dump / parse failed: %s" % str(e)[-600:])
         print(json.dumps(task.result))
         return
-    which = sys.argv[1:] or ["array", "call"]
+    which = sys.argv[1:] or ["array", "call", "object"]
     if "array" in which:
         kernel_array_methods(task, bodies, enums, structs)
     if "call" in which:
         kernel_call_function(task, bodies, enums, structs)
+    if "object" in which:
+        kernel_object_dispatch(task, bodies, enums, structs)
     r = task.result
     r["nontrivial"] = r["discharged"]
     r["solver_s"] = round(r["solver_s"], 2)
